@@ -3,17 +3,24 @@
    FilePath, every request served by a real static.File behind server.Site and
    every command handled by a real FTP server must be a step PathNS allows,
    with every logged field matching.  Paths arrive split at "/" (lexical split
-   only); whether they are inside the root is decided here, by Walk.          *)
+   only); whether they are inside the root is decided here, by Walk.
+
+   The events of a trace are independent observations on one root, so an event
+   that no action of PathNS explains does not end the validation of its trace:
+   it is recorded as rejected (register Len(Traces) + tid) and skipped, and the
+   remaining events are still checked.  A trace that gets stuck for any other
+   reason is reported through register tid, as in the basic idiom.            *)
 EXTENDS PathNS, TLC, Json, IOUtils
 
 Traces == JsonDeserialize(IOEnv.TRACE_FILE)
+N == Len(Traces)
 VARIABLES tid, l
-ASSUME \A t \in 1..Len(Traces) : TLCSet(t, 1)
+ASSUME \A t \in 1..N : TLCSet(t, 1) /\ TLCSet(N + t, {})
 
 T == Traces[tid]
 E == T.ev[l]
 
-TInit == /\ tid \in 1..Len(Traces) /\ l = 1
+TInit == /\ tid \in 1..N /\ l = 1
          /\ InitWith([root |-> Traces[tid].cfg.root, cwd |-> Traces[tid].cfg.cwd])
 
 IsCall == E.e \in {"child", "preauthChild", "descendant"}
@@ -21,9 +28,11 @@ Matches == /\ last'.e = E.e
            /\ (IsCall => last'.res = E.res /\ (E.res = "ok" => last'.path = E.path))
            /\ (E.e \in {"web", "ftp"} => last'.acc = E.acc /\ last'.served = E.served)
 
-Step(A) == /\ l <= Len(T.ev) /\ A /\ Matches /\ Inv' /\ l' = l + 1 /\ UNCHANGED tid
+\* Inv' : the design invariants are evaluated at every step of every real execution.
+Step(A) == /\ A /\ Matches /\ Inv' /\ l' = l + 1 /\ UNCHANGED tid
 
-TNext == \/ (E.e = "child" /\ E.res = "ok" /\ Step(ChildRet(E.path)))
+Explained ==
+         \/ (E.e = "child" /\ E.res = "ok" /\ Step(ChildRet(E.path)))
          \/ (E.e = "child" /\ E.res = "InsecurePath" /\ Step(ChildRaise))
          \/ (E.e = "preauthChild" /\ E.res = "ok" /\ Step(PreauthRet(E.path)))
          \/ (E.e = "preauthChild" /\ E.res = "InsecurePath" /\ Step(PreauthRaise))
@@ -32,9 +41,24 @@ TNext == \/ (E.e = "child" /\ E.res = "ok" /\ Step(ChildRet(E.path)))
          \/ (E.e = "web" /\ Step(WebReq(E.acc, E.served)))
          \/ (E.e = "ftp" /\ Step(FtpCmd(E.acc, E.served)))
 
-TSpec == TInit /\ [][l <= Len(T.ev) /\ TNext]_<<vars, tid, l>>
+\* the enabling conditions of the actions above (PathNS: ChildRet, PreauthRet, DescRet, WebReq, FtpCmd), as a state predicate
+Explainable ==
+         \/ (IsCall /\ E.res = "InsecurePath")
+         \/ (E.e = "child" /\ E.res = "ok" /\ DirectOrSelf(LocOf(E.path)))
+         \/ (E.e \in {"preauthChild", "descendant"} /\ E.res = "ok" /\ Inside(LocOf(E.path)))
+         \/ (E.e \in {"web", "ftp"} /\ Confined(E.acc, E.served))
+
+\* an event nothing explains: recorded, skipped
+Reject == /\ ~Explainable
+          /\ TLCSet(N + tid, TLCGet(N + tid) \cup {l})
+          /\ l' = l + 1 /\ UNCHANGED <<vars, tid>>
+
+TNext == l <= Len(T.ev) /\ (Explained \/ Reject)
+TSpec == TInit /\ [][TNext]_<<vars, tid, l>>
 
 Progress == TLCSet(tid, IF TLCGet(tid) > l THEN TLCGet(tid) ELSE l)
-Rejected == {<<t, TLCGet(t)>> : t \in {u \in 1..Len(Traces) : TLCGet(u) # Len(Traces[u].ev) + 1}}
+Stuck    == {<<t, TLCGet(t)>> : t \in {u \in 1..N : TLCGet(u) # Len(Traces[u].ev) + 1}}
+Skipped  == UNION {{<<t, k>> : k \in TLCGet(N + t)} : t \in 1..N}
+Rejected == Stuck \cup Skipped
 Accepted == Rejected = {} \/ (PrintT(<<"REJECTED", Rejected>>) /\ FALSE)
 =============================================================================
